@@ -250,18 +250,25 @@ func (r *relay) processFrame(f http2.Frame) error {
 			r.destMu.Unlock()
 		} else {
 			var settings []http2.Setting
+			// A frame may carry the same setting more than once; its values take effect together (RFC 7540,
+			// section 6.5.3). Releasing queued DATA for an intermediate window size would exceed the final one.
+			var windowSize *uint32
 			if err = f.ForeachSetting(func(s http2.Setting) error {
 				switch s.ID {
 				case http2.SettingHeaderTableSize:
 					r.peer.updateTableSize(s.Val)
 				case http2.SettingInitialWindowSize:
-					r.peer.updateInitialWindowSize(s.Val)
+					v := s.Val
+					windowSize = &v
 				case http2.SettingMaxFrameSize:
 					r.peer.updateMaxFrameSize(s.Val)
 				}
 				settings = append(settings, s)
 				return nil
 			}); err == nil {
+				if windowSize != nil {
+					r.peer.updateInitialWindowSize(*windowSize)
+				}
 				r.destMu.Lock()
 				err = r.dest.WriteSettings(settings...)
 				r.destMu.Unlock()
